@@ -126,6 +126,7 @@ PosIndex(S, p, seq, pos) ==
      [] pos.t = "true" -> 1
      [] pos.t = "idx"  -> IF pos.v >= 0 /\ pos.v <= Len(seq) THEN pos.v + 1 ELSE 0
      [] pos.t = "node" -> IF pos.v \in SeqSet(seq) THEN IndexOf(seq, pos.v) ELSE 0
+     [] OTHER -> 0        \* "other": a value that is neither bool, int nor node (e.g. the data of a sibling)
 
 (* an int position beyond the end of the child list: the documentation only speaks of "the existing child with
    this index"; Python's list.insert appends.  The specification admits both outcomes: the operation is carried out
@@ -348,7 +349,9 @@ SrcOf(W, op) == IF op.src = "S" THEN W.s ELSE W.t
 
 Apply(W, op) ==
    LET S == W.t IN
-   CASE op.name = "add_child"       -> DoAdd(S, op.p, op.d, op.xid, op.k, op.pos, "add")
+   CASE op.name = "add_child"       ->
+            IF op.k = -1 THEN Refuse(S, AnyErr, "add:bad_kind")      \* kind= of an unsupported type (typed trees)
+            ELSE DoAdd(S, op.p, op.d, op.xid, op.k, op.pos, "add")
      [] op.name = "add_child_nid"   ->   \* add_child(data, node_id=<the node_id of existing node op.x>): node ids stay unique
             Refuse(S, AnyErr, "add:dup_node_id")
      [] op.name = "append_child"    -> DoAdd(S, op.p, op.d, op.xid, op.k, PosNone, "append_child")
@@ -359,6 +362,12 @@ Apply(W, op) ==
             DoAdd(S, S.par[op.x], op.d, op.xid, S.knd[op.x], NextSibPos(S, op.x), "append_sibling")
      [] op.name = "add_node"        ->   \* p.add_child(node x of tree src, deep=, before=) / x.copy_to(p, ...)
             IF op.src = "S" /\ W.s.typed # S.typed THEN Refuse(S, AnyErr, "add_node:typed_mismatch")
+            \* ids for the copy: "only allowed for single nodes, not for deep copies"; the copy is a clone, so a
+            \* data_id other than the source's is a conflict (nid / xidc are optional fields, with pos = none only)
+            ELSE IF op.deep /\ ("nid" \in DOMAIN op \/ "xidc" \in DOMAIN op)
+                 THEN Refuse(S, {"ValueError"}, "add_node:id_for_deep_copy")
+            ELSE IF "xidc" \in DOMAIN op /\ op.xidc # SrcOf(W, op).did[op.x]
+                 THEN Refuse(S, {"UniqueConstraintError"}, "add_node:data_id_conflict")
             ELSE DoAddNode(S, op.p, SrcOf(W, op), op.x, op.k, op.deep, op.pos, "add_node")
      [] op.name = "add_tree"        ->   \* p.add_child(tree S, before=, deep=) ; returns a node (unspecified which)
             DoAddList(S, op.p, W.s, 0, op.deep, op.pos, "add_tree", {})
